@@ -47,3 +47,47 @@ theorem bitsNat_natBits256 (h : Nat) (hh : h < 2 ^ 256) : bitsNat (natBits256 h)
 #print axioms bitsBytes_bytesBits
 #print axioms bitsNat_natBits256
 end Prog
+
+namespace Prog
+
+/-- pigeonhole: an injective map of `[0, m)` into `[0, b)` needs `m ≤ b` -/
+theorem pigeon_fn : ∀ (b m : Nat) (φ : Nat → Nat), (∀ j, j < m → φ j < b) →
+    (∀ j j', j < m → j' < m → φ j = φ j' → j = j') → m ≤ b := by
+  intro b
+  induction b with
+  | zero =>
+    intro m φ h _
+    rcases Nat.eq_zero_or_pos m with h0 | h0
+    · omega
+    · have := h 0 h0; omega
+  | succ b ih =>
+    intro m φ hlt hinj
+    rcases Nat.eq_zero_or_pos m with h0 | h0
+    · omega
+    · obtain ⟨m', rfl⟩ : ∃ m', m = m' + 1 := ⟨m - 1, by omega⟩
+      have := ih m' (fun j => if φ j = b then φ m' else φ j) ?_ ?_
+      · omega
+      · intro j hj
+        show (if φ j = b then φ m' else φ j) < b
+        split
+        · next e =>
+          have h1 := hlt m' (by omega)
+          have : φ m' ≠ b := by
+            intro e'
+            have := hinj j m' (by omega) (by omega) (by rw [e, e'])
+            omega
+          omega
+        · next e => have := hlt j (by omega); omega
+      · intro j j' hj hj' e
+        have e : (if φ j = b then φ m' else φ j) = (if φ j' = b then φ m' else φ j') := e
+        split at e <;> split at e
+        · next e1 e2 => exact hinj j j' (by omega) (by omega) (by rw [e1, e2])
+        · next e1 e2 =>
+          have := hinj m' j' (by omega) (by omega) e
+          omega
+        · next e1 e2 =>
+          have := hinj j m' (by omega) (by omega) e
+          omega
+        · exact hinj j j' (by omega) (by omega) e
+
+end Prog
